@@ -9,6 +9,7 @@ import math
 
 import numpy as np
 
+from vmon import faults
 from vmon import refmodel as R
 from vmon import world
 from vmon.props import c01 as base
@@ -35,7 +36,7 @@ REQUIRED = dict(monitors=['restricted-equals-full', 'restricted-grid-is-subset',
                           'binned-restricted-equals-binned-full', 'opacity-own-points-unchanged',
                           'opacity-foreign-points-between-neighbours', 'emission-restricted-equals-full',
                           'sequence-no-stale-state', 'per-source-restricted-equals-full'],
-                classes=['grid:inside', 'grid:edge', 'grid:partly-outside', 'grid:observation', 'model:emission',
+                classes=['sequence:fault', 'grid:inside', 'grid:edge', 'grid:partly-outside', 'grid:observation', 'model:emission',
                          'different-native-grids', 'layout:xsec', 'layout:ktable', 'contrib:HydrogenIon',
                          'sliding-window-same-size', 'request:own-full', 'request:foreign-same-ends-and-count',
                          'request:foreign-shifted-same-count', 'request:own-sub-range', 'request:foreign-random'])
@@ -454,8 +455,27 @@ def wl_sequence(ctx, rng):
         order = order + ['model-sub2']
         k_ = int(rng.integers(0, len(order)))
         order.insert(k_, 'model-sub')         # make sure a window of the same size was computed before the shifted one
+    if rng.random() < 0.5:
+        order.insert(int(rng.integers(0, len(order) + 1)), 'fault')
     comp = {}
     for op in order:
+        if op == 'fault':
+            # an evaluation on a restricted grid is rejected half way (injected InvalidModelException); nothing of the
+            # aborted evaluation may survive into the following ones
+            how = [lambda: model.model(wngrid=g), lambda: model.model_contrib(wngrid=g),
+                   lambda: model.model_full_contrib(wngrid=g), model.model][int(rng.integers(0, 4))]
+            before_list = list(model.contribution_list)
+            site = faults.drive_into(ctx, rng, how, kmax=3)
+            if site == 'rejected':
+                return
+            if site:
+                ctx.observe('sequence:fault')
+                if list(model.contribution_list) != before_list:
+                    # an aborted per-contribution run leaves the model with a shortened contribution list -- observed,
+                    # and put back so that the sequence can go on (C03 speaks of completed runs only)
+                    ctx.event('observed:contribution-list-not-restored-after-aborted-model_contrib')
+                    model.contribution_list = before_list
+            continue
         if op == 'model-sub':
             sub = run_tm(ctx, model, wngrid=g)
             compare_tm(ctx, 'restricted-equals-full', first, sub, 'sequence')
